@@ -21,3 +21,28 @@ Fixpoint offsets (n : node) : list span :=
 (* a range inside a file of n characters, start not after end *)
 Definition span_in (n : N) (s : span) : Prop := fst s <= snd s /\ snd s <= n.
 Definition diag_spans (d : list diag) : list span := flat_map (fun x => snd x) d.
+
+(* ---- moving a tree / a diagnostic k characters to the right ---------------------------------------------- *)
+Fixpoint shift_node (k : N) (n : node) : node :=
+  let fix go (l : list node) : list node := match l with [] => [] | x :: r => shift_node k x :: go r end in
+  match n with
+  | Symbol s e nm l => Symbol (s + k) (e + k) nm l
+  | Number s e r v a b => Number (s + k) (e + k) r v a b
+  | CharLit s e r str => CharLit (s + k) (e + k) r str
+  | IPtr s e => IPtr (s + k) (e + k)
+  | Paren s e x o c => Paren (s + k) (e + k) (shift_node k x) o c
+  | Infix s e op l r => Infix (s + k) (e + k) op (shift_node k l) (shift_node k r)
+  | Prefix s e op x => Prefix (s + k) (e + k) op (shift_node k x)
+  | Postfix s e op x => Postfix (s + k) (e + k) op (shift_node k x)
+  | QuotedStr s e q str => QuotedStr (s + k) (e + k) q str
+  | AngleChar s e x => AngleChar (s + k) (e + k) (shift_node k x)
+  | Concat s e l => Concat (s + k) (e + k) (go l)
+  | Insn s e nm ops => Insn (s + k) (e + k) (shift_node k nm) (go ops)
+  | Words s e ws => Words (s + k) (e + k) (go ws)
+  | Label s e nm ext => Label (s + k) (e + k) nm ext
+  | Assign s e t v ext => Assign (s + k) (e + k) (shift_node k t) (shift_node k v) ext
+  | Block s e b l => Block (s + k) (e + k) (match b with Some p => Some (p + k) | None => None end) (go l)
+  end.
+Definition shift_span (k : N) (s : span) : span := (fst s + k, snd s + k).
+Definition shift_diag (k : N) (d : diag) : diag := (fst d, map (shift_span k) (snd d)).
+Definition shift_ctx (k : N) (c : ctx) : ctx := mkCtx (pos c + k) (rest c).
